@@ -45,6 +45,7 @@ def fixture(bkey):
             class Meta:
                 app_label = "vf"
         _FIX[bkey] = BlogPost
+        _FIX["_keep_django"] = (Author, BlogPost)
     else:
         import sqlalchemy as sa
         from sqlalchemy.orm import declarative_base, relationship
@@ -68,6 +69,7 @@ def fixture(bkey):
             author_id = sa.Column(sa.Integer, sa.ForeignKey("author.id"))
             author = relationship("Author", back_populates="blogposts")
         _FIX["sa_orm"] = BlogPost
+        _FIX["_keep_sa"] = (Base, Author, BlogPost)      # the declarative registry holds classes weakly
         _FIX["sa_core"] = BlogPost.__table__
     return _FIX[bkey]
 
